@@ -21,7 +21,7 @@ using namespace Vector::BLF;
 
 struct Cfg {
     int kind;                  // 0 read all, 1 read k then close, 2 read k then destroy, 3 write all + close, 4 write all + destroy, 5 open/close no traffic (read), 6 same (write)
-    std::vector<long> sizes;   // per object: -1 = CanMessage, >=0 = AppText with that text length
+    std::vector<long> sizes;   // per object: -1 = CanMessage, -2 = LinMessage2 in its version-1/2 layout (shorter than the class's largest layout), >=0 = AppText with that text length
     uint32_t C; long B; uint32_t Q; int level; bool trailer; int k; bool shipped;
     std::string str() const {
         std::ostringstream s; s << "kind=" << kind << " C=" << C << " B=" << B << " Q=" << Q << " level=" << level << " trailer=" << trailer << " k=" << k << " sizes=[";
@@ -29,7 +29,7 @@ struct Cfg {
         s << "]"; return s.str();
     }
     std::string sizeclass() const {   // coarse class for violation keys
-        long mx = -1; for (long x : sizes) mx = std::max(mx, x);
+        long mx = -1; for (long x : sizes) mx = std::max(mx, x);   // -1/-2 are fixed-size objects
         long eff = (mx < 0 ? 48 : 48 + mx);
         long b = B > 0 ? B : 0x20000;
         std::string s = eff > b + (long)C ? "obj>buffer+container" : eff > b ? "obj>buffer" : eff > (long)C ? "obj>container" : "obj<=container";
@@ -57,7 +57,8 @@ static Cfg make_cfg(uint64_t seed, long ci) {
     for (int i = 0; i < n; i++) {
         long s;
         switch (r.below(9)) {
-        case 0: case 1: s = -1; break;
+        case 0: s = -1; break;
+        case 1: s = r.chance(1, 2) ? -1 : -2; break;
         case 2: s = r.below(40); break;
         case 3: s = (long)c.C - 48 + (long)r.below(5) - 2; break;              // object ~ container
         case 4: s = b - 48 + (long)r.below(5) - 2; break;                      // object ~ buffer
@@ -74,14 +75,24 @@ static Cfg make_cfg(uint64_t seed, long ci) {
     return c;
 }
 
+static LinMessage2 * make_lin(uint32_t uid) {
+    LinMessage2 * m = new LinMessage2; m->apiMajor = 1 + uid % 2; m->objectTimeStamp = uid; m->objectFlags = 1; m->channel = 7; m->id = (uint8_t)uid; m->dlc = 8; m->crc = (uint16_t)(uid * 3);
+    for (size_t k = 0; k < m->data.size(); k++) m->data[k] = (uint8_t)(uid + k); m->respBaudrate = uid; return m;
+}
 static twin::Bytes make_stream(const Cfg & c) {
     twin::Bytes s;
-    for (size_t i = 0; i < c.sizes.size(); i++) { twin::Bytes o = c.sizes[i] < 0 ? twin::can_message(1000 + i) : twin::app_text(1000 + i, (size_t)c.sizes[i]); s.insert(s.end(), o.begin(), o.end()); }
+    for (size_t i = 0; i < c.sizes.size(); i++) {
+        twin::Bytes o;
+        if (c.sizes[i] == -2) { LinMessage2 * m = make_lin(1000 + (uint32_t)i); MemFile mf; m->write(mf); delete m; o = mf.buf; }   // encoded by the codec (C01-C03 cover it), wrapped independently
+        else o = c.sizes[i] < 0 ? twin::can_message(1000 + i) : twin::app_text(1000 + i, (size_t)c.sizes[i]);
+        s.insert(s.end(), o.begin(), o.end());
+    }
     return s;
 }
 
 static ObjectHeaderBase * make_object(const Cfg & c, size_t i) {
     uint32_t uid = 1000 + (uint32_t)i;
+    if (c.sizes[i] == -2) return make_lin(uid);
     if (c.sizes[i] < 0) { CanMessage * m = new CanMessage; m->objectTimeStamp = uid; m->objectFlags = 1; m->channel = 1; m->dlc = 8; m->id = uid; uint64_t d = uid * 0x9E3779B97F4A7C15ULL; memcpy(m->data.data(), &d, 8); return m; }
     AppText * t = new AppText; t->objectTimeStamp = uid; t->objectFlags = 1; t->source = uid; t->text.resize((size_t)c.sizes[i]);
     for (size_t k = 0; k < t->text.size(); k++) t->text[k] = (char)('A' + (uid * 7 + k * 13) % 53);
@@ -92,18 +103,26 @@ static ObjectHeaderBase * make_object(const Cfg & c, size_t i) {
 static std::string check_and_consume(ObjectHeaderBase * o, const Cfg & c, size_t i) {
     std::string err;
     uint32_t uid = 1000 + (uint32_t)i;
+    if (c.sizes[i] == -2) {
+        LinMessage2 * m = dynamic_cast<LinMessage2 *>(o);
+        if (!m) err = "wrong class"; else if (m->objectTimeStamp != uid || m->id != (uint8_t)uid || m->crc != (uint16_t)(uid * 3)) err = "wrong object (LinMessage2 " + std::to_string(m->objectTimeStamp) + " expected " + std::to_string(uid) + ")";
+        else if (m->apiMajor != 1 + uid % 2 || m->data[3] != (uint8_t)(uid + 3) || (m->apiMajor >= 2 && m->respBaudrate != uid)) err = "modified LinMessage2";
+        if (m) { m->objectSize = 0; m->objectType = ObjectType::UNKNOWN; m->objectTimeStamp = ~0ULL; m->apiMajor = 9; m->data.fill(0xee); }
+        delete o;
+        return err;
+    }
     if (c.sizes[i] < 0) {
         CanMessage * m = dynamic_cast<CanMessage *>(o);
         uint64_t d = uid * 0x9E3779B97F4A7C15ULL;
         if (!m) err = "wrong class"; else if (m->id != uid || m->objectTimeStamp != uid) err = "wrong object (id " + std::to_string(m->id) + " expected " + std::to_string(uid) + ")";
         else if (memcmp(m->data.data(), &d, 8) || m->dlc != 8 || m->channel != 1) err = "modified CanMessage";
-        if (m) { m->id = 0xdeadbeef; m->objectTimeStamp = ~0ULL; m->objectType = ObjectType::UNKNOWN; m->data.fill(0xff); }
+        if (m) { m->id = 0xdeadbeef; m->objectTimeStamp = ~0ULL; m->objectType = ObjectType::UNKNOWN; m->objectSize = 0; m->data.fill(0xff); }
     } else {
         AppText * t = dynamic_cast<AppText *>(o);
         if (!t) err = "wrong class"; else if (t->source != uid || t->objectTimeStamp != uid) err = "wrong object (source " + std::to_string(t->source) + " expected " + std::to_string(uid) + ")";
         else if (t->text.size() != (size_t)c.sizes[i] || t->textLength != (uint32_t)c.sizes[i]) err = "text length " + std::to_string(t->text.size());
         else for (size_t k = 0; k < t->text.size(); k++) if (t->text[k] != (char)('A' + (uid * 7 + k * 13) % 53)) { err = "modified text at " + std::to_string(k); break; }
-        if (t) { t->source = 0xdeadbeef; t->objectType = ObjectType::UNKNOWN; t->objectTimeStamp = ~0ULL; std::fill(t->text.begin(), t->text.end(), '#'); }
+        if (t) { t->source = 0xdeadbeef; t->objectType = ObjectType::UNKNOWN; t->objectSize = 0; t->objectTimeStamp = ~0ULL; std::fill(t->text.begin(), t->text.end(), '#'); }
     }
     delete o;
     return err;
@@ -114,7 +133,7 @@ struct RunOut { std::string err; twin::Bytes file; int threads_left; uint64_t st
 // one session; controlled = under the schedule controller
 static RunOut session(const Cfg & c, const std::string & path, bool controlled, uint64_t sseed, int strategy, int sparam, int spurious) {
     RunOut out; out.threads_left = 0; out.steps = 0; out.sig = 0;
-    if (controlled) { sched_set_budget(400000); sched_set_spurious(spurious); sched_begin(sseed, strategy, sparam); }
+    if (controlled) { sched_set_budget(400000); sched_set_spurious(spurious); sched_set_timeouts(spurious ? 20 : 0); sched_begin(sseed, strategy, sparam); }
     {
         File * f = new File;
         if (!c.shipped) f->verifSetLimits(c.Q, c.B);
@@ -157,6 +176,17 @@ static RunOut session(const Cfg & c, const std::string & path, bool controlled, 
 
 static int native_threads() { int n = 0; DIR * d = opendir("/proc/self/task"); if (!d) return -1; while (readdir(d)) n++; closedir(d); return n - 2; }
 
+static long g_sessions = 0, g_read = 0, g_write = 0, g_early = 0, g_maxsteps = 0; static uint64_t g_steps = 0; static std::set<uint64_t> * g_sigs = nullptr; static std::map<int, long> * g_kinds = nullptr; static std::string g_sample;
+static void emit_stats() {
+    char sites[4096]; sched_site_counts(sites, sizeof sites);
+    std::ostringstream s;
+    s << "{\"sessions\":" << g_sessions << ",\"read_sessions\":" << g_read << ",\"write_sessions\":" << g_write << ",\"early_close_sessions\":" << g_early
+      << ",\"steps\":" << g_steps << ",\"max_steps\":" << g_maxsteps << ",\"distinct_signatures\":" << (g_sigs ? g_sigs->size() : 0) << ",\"blocked_at\":{" << sites << "},\"kinds\":{";
+    bool first = true; if (g_kinds) for (auto & kv : *g_kinds) { s << (first ? "" : ",") << "\"" << kv.first << "\":" << kv.second; first = false; }
+    s << "},\"samples\":[" << hc::jstr(g_sample) << "]}";
+    hc::stat(s.str());
+}
+
 int main(int argc, char ** argv) {
     hc::out_init();
     if (argc < 6) { fprintf(stderr, "usage: h_pipe pipe seed from to schedules_per_config\n"); return 2; }
@@ -164,8 +194,8 @@ int main(int argc, char ** argv) {
     const char * tmp = getenv("VERIF_TMP"); std::string dir = tmp ? tmp : "/dev/shm";
     std::string path = dir + "/pipe." + std::to_string(getpid()) + ".blf";
     wd::start();
-    long sessions = 0, maxsteps = 0, read_sessions = 0, write_sessions = 0, early = 0; uint64_t totsteps = 0;
-    std::set<uint64_t> sigs; std::map<int, long> kinds; std::string sample;
+    long & sessions = g_sessions; long & maxsteps = g_maxsteps; long & read_sessions = g_read; long & write_sessions = g_write; long & early = g_early; uint64_t & totsteps = g_steps;
+    std::set<uint64_t> sigs; std::map<int, long> kinds; std::string & sample = g_sample; g_sigs = &sigs; g_kinds = &kinds;
     long cur_cfg = -1; Cfg c; twin::Bytes ref; bool ref_ok = false;
     int base_threads = native_threads();
     for (long idx = from; idx < to; idx++) {
@@ -202,7 +232,7 @@ int main(int argc, char ** argv) {
         static std::string ctx; ctx = c.sizeclass() + " " + c.str() + " case=" + std::to_string(idx);
         sched_on_violation = [](const char * kind, const char * key, const char * report) {
             std::string r = report; for (auto & ch : r) if (ch == '\n') ch = '|';
-            printf("@viol C06:%s:%s :: %s || %s\n", kind, key, ctx.c_str(), r.c_str()); fflush(stdout); _exit(42);
+            printf("@viol C06:%s:%s :: %s || %s\n", kind, key, ctx.c_str(), r.c_str()); fflush(stdout); emit_stats(); _exit(42);
         };
         RunOut r = session(c, path, true, sseed, strategy, sparam, spurious);
         sessions++; totsteps += r.steps; if ((long)r.steps > maxsteps) maxsteps = (long)r.steps; sigs.insert(r.sig); kinds[c.kind]++;
@@ -225,12 +255,6 @@ int main(int argc, char ** argv) {
         wd::disarm();
     }
     unlink(path.c_str());
-    char sites[4096]; sched_site_counts(sites, sizeof sites);
-    std::ostringstream s;
-    s << "{\"sessions\":" << sessions << ",\"read_sessions\":" << read_sessions << ",\"write_sessions\":" << write_sessions << ",\"early_close_sessions\":" << early
-      << ",\"steps\":" << totsteps << ",\"max_steps\":" << maxsteps << ",\"distinct_signatures\":" << sigs.size() << ",\"blocked_at\":{" << sites << "},\"kinds\":{";
-    bool first = true; for (auto & kv : kinds) { s << (first ? "" : ",") << "\"" << kv.first << "\":" << kv.second; first = false; }
-    s << "},\"samples\":[" << hc::jstr(sample) << "]}";
-    hc::stat(s.str());
+    emit_stats();
     return 0;
 }
